@@ -104,6 +104,8 @@ type Engine struct {
 	wgHook       FuncV
 	watched      map[*Loc]bool
 	watchHits    int
+	replaced     map[string]FuncV
+	inReplaced   map[string]bool
 }
 
 type AssertStat struct {
@@ -333,9 +335,6 @@ func (e *Engine) nondetFloat(tag string) *Term {
 		fmt.Sscanf(s, "fpbits:%x", &bits)
 		return e.tb.FP(math.Float64frombits(bits))
 	}
-	if e.fpUF {
-		return e.tb.Var(name, SortUFF)
-	}
 	return e.tb.Var(name, SortFP)
 }
 
@@ -446,6 +445,8 @@ func (e *Engine) resetPathState() {
 	e.wgHook = FuncV{}
 	e.watched = nil
 	e.watchHits = 0
+	e.replaced = map[string]FuncV{}
+	e.inReplaced = map[string]bool{}
 }
 
 func (e *Engine) runPath(fn *ssa.Function, prefix []Decision, wit *Witness) (status, detail string) {
@@ -465,58 +466,149 @@ func (e *Engine) runPath(fn *ssa.Function, prefix []Decision, wit *Witness) (sta
 	return "DONE", ""
 }
 
-func (e *Engine) RunHarness(fn *ssa.Function, wit *Witness) *HarnessResult {
-	e.h = &HarnessResult{Name: fn.Name(), Params: e.params, Paths: map[string]int{}, PathDetails: map[string]int{},
+func newResult(name string, params map[string]int) *HarnessResult {
+	return &HarnessResult{Name: name, Params: params, Paths: map[string]int{}, PathDetails: map[string]int{},
 		Asserts: map[string]*AssertStat{}, Reached: map[string]int{}, Funcs: map[string]int{}, Stubs: map[string]int{},
 		GoSites: map[string]int{}, Expect: map[string]string{}}
-	e.work = [][]Decision{nil}
-	npaths := 0
-	for len(e.work) > 0 {
-		prefix := e.work[len(e.work)-1]
-		e.work = e.work[:len(e.work)-1]
-		st, det := e.runPath(fn, prefix, wit)
-		npaths++
-		e.h.Paths[st]++
-		if st != "DONE" && st != "ASSUME-FALSE" {
-			k := st + ": " + det
-			if len(k) > 200 {
-				k = k[:200]
-			}
-			e.h.PathDetails[k]++
-			if st == "UNMODELLED" {
-				found := false
-				for _, u := range e.h.Unmodelled {
-					if u == det {
-						found = true
-					}
+}
+
+// RunOne explores exactly one path (the one selected by prefix) and returns the
+// alternative prefixes discovered on the way.
+func (e *Engine) RunOne(fn *ssa.Function, prefix []Decision, wit *Witness) [][]Decision {
+	if e.h == nil {
+		e.h = newResult(fn.Name(), e.params)
+	}
+	e.work = nil
+	st, det := e.runPath(fn, prefix, wit)
+	e.h.Paths[st]++
+	if st != "DONE" && st != "ASSUME-FALSE" {
+		k := st + ": " + det
+		if len(k) > 200 {
+			k = k[:200]
+		}
+		e.h.PathDetails[k]++
+		if st == "UNMODELLED" {
+			found := false
+			for _, u := range e.h.Unmodelled {
+				if u == det {
+					found = true
 				}
-				if !found {
-					e.h.Unmodelled = append(e.h.Unmodelled, det)
-				}
+			}
+			if !found {
+				e.h.Unmodelled = append(e.h.Unmodelled, det)
 			}
 		}
-		for k := range e.path.reached {
-			e.h.Reached[k]++
-		}
-		if len(e.h.Samples) < 3 && st == "DONE" && len(e.path.trace) > 0 {
-			e.h.Samples = append(e.h.Samples, strings.Join(e.path.trace, " ; "))
-		}
-		if wit != nil {
-			e.h.Dumps = e.path.dumps
-		}
-		if e.verbose {
-			fmt.Fprintf(os.Stderr, "  path %d: %s %s (pc=%d, log=%d, work=%d)\n", npaths, st, det, len(e.path.pc), len(e.path.log), len(e.work))
-		}
+	}
+	for k := range e.path.reached {
+		e.h.Reached[k]++
+	}
+	if len(e.h.Samples) < 2 && st == "DONE" && len(e.path.trace) > 0 {
+		e.h.Samples = append(e.h.Samples, strings.Join(e.path.trace, " ; "))
+	}
+	if wit != nil {
+		e.h.Dumps = e.path.dumps
+	}
+	if e.verbose {
+		fmt.Fprintf(os.Stderr, "  path: %s %s (pc=%d, log=%d, alts=%d)\n", st, det, len(e.path.pc), len(e.path.log), len(e.work))
+	}
+	alts := e.work
+	e.work = nil
+	return alts
+}
+
+func (e *Engine) RunHarness(fn *ssa.Function, wit *Witness) *HarnessResult {
+	e.h = newResult(fn.Name(), e.params)
+	work := [][]Decision{nil}
+	n := 0
+	for len(work) > 0 {
+		prefix := work[len(work)-1]
+		work = work[:len(work)-1]
+		work = append(work, e.RunOne(fn, prefix, wit)...)
+		n++
 		if wit != nil {
 			break
 		}
-		if e.maxPaths > 0 && npaths >= e.maxPaths {
-			e.h.Truncated = len(e.work) > 0
+		if e.maxPaths > 0 && n >= e.maxPaths {
+			e.h.Truncated = len(work) > 0
 			break
 		}
 	}
 	e.h.Stats = e.solver.Stats
 	return e.h
+}
+
+// merge folds another partial result of the same harness instance into r.
+func (r *HarnessResult) merge(o *HarnessResult) {
+	for k, v := range o.Paths {
+		r.Paths[k] += v
+	}
+	for k, v := range o.PathDetails {
+		r.PathDetails[k] += v
+	}
+	r.Forks += o.Forks
+	for k, a := range o.Asserts {
+		if x, ok := r.Asserts[k]; ok {
+			x.Unsat += a.Unsat
+			x.Sat += a.Sat
+			x.Unknown += a.Unknown
+			x.Trivial += a.Trivial
+		} else {
+			c := *a
+			r.Asserts[k] = &c
+		}
+	}
+	for _, f := range o.Fails {
+		nf := 0
+		for _, g := range r.Fails {
+			if g.Msg == f.Msg {
+				nf++
+			}
+		}
+		if nf < 3 {
+			r.Fails = append(r.Fails, f)
+		}
+	}
+	for k, v := range o.Reached {
+		r.Reached[k] += v
+	}
+	for k, v := range o.Funcs {
+		r.Funcs[k] += v
+	}
+	for k, v := range o.Stubs {
+		r.Stubs[k] += v
+	}
+	for k, v := range o.GoSites {
+		r.GoSites[k] += v
+	}
+	for k, v := range o.Expect {
+		r.Expect[k] = v
+	}
+	for _, u := range o.Unmodelled {
+		found := false
+		for _, x := range r.Unmodelled {
+			if x == u {
+				found = true
+			}
+		}
+		if !found {
+			r.Unmodelled = append(r.Unmodelled, u)
+		}
+	}
+	if len(r.Samples) < 3 {
+		r.Samples = append(r.Samples, o.Samples...)
+	}
+	s, t := &r.Stats, o.Stats
+	s.Queries += t.Queries
+	s.Sat += t.Sat
+	s.Unsat += t.Unsat
+	s.Unknown += t.Unknown
+	s.Errors += t.Errors
+	s.Seconds += t.Seconds
+	s.Restarts += t.Restarts
+	if t.MaxQuery > s.MaxQuery {
+		s.MaxQuery = t.MaxQuery
+	}
+	r.Truncated = r.Truncated || o.Truncated
 }
 
 func sortedKeys(m map[string]int) []string {
